@@ -1,5 +1,5 @@
 (** C05 — Forbid/Enqueue never run more Jobs of a JobConfig at once than maxConcurrency. *)
-From Furiko Require Import Queue.World Proofs.QueueP Proofs.QueueInvP.
+From Furiko Require Import Queue.World Proofs.QueueP Proofs.QueueInvP Proofs.QueueEqP.
 
 (** THE property over histories.  For every history of Job creation, finish, deletion,
     maxConcurrency edits, clock steps, cache and listener deliveries in any interleaving,
@@ -24,6 +24,17 @@ Theorem c05_counter_dominates :
     let w := qrun_world (init_qworld now m) ops in acount (qa_jobs w) <= q_counter w.
 Proof. exact counter_dominates. Qed.
 Print Assumptions c05_counter_dominates.
+
+(** ... and it does not leak: with exact accounting (counter + pending store effects = owned
+    active Jobs in the API, which needs resourceVersions to identify versions and Job names
+    to be unique), once the store has seen every event the counter IS the number of owned
+    active Jobs in the API *)
+Theorem c05_counter_exact_when_delivered :
+  forall now m ops, run_ok2 (init_qworld now m) ops ->
+    let w := qrun_world (init_qworld now m) ops in
+    qc_pending w = [] -> qs_pending w = [] -> q_counter w = acount (qa_jobs w).
+Proof. exact counter_exact_when_delivered. Qed.
+Print Assumptions c05_counter_exact_when_delivered.
 
 (** Every Forbid/Enqueue Job that a pass starts was admitted at a count a' with
     a' + 1 <= maxConcurrency (default 1), where a' is the active-job counter at that
